@@ -549,7 +549,11 @@ class OrderedVerdict(object):
         return True
 
     def flush(self):
-        for payload, concrete in sorted(self.buf, key=lambda pc: 0 if pc[1] else 1):
+        conc = [pc for pc in self.buf if pc[1]]
+        brk = [pc for pc in self.buf if not pc[1] and str(pc[0].get("kind", "")).startswith("broken proof obligation")]
+        rest = [pc for pc in self.buf if not pc[1] and pc not in brk]
+        # common.Verdict prints five: up to four concrete inputs, then the broken obligations, then the rest
+        for payload, concrete in conc[:4] + brk + conc[4:] + rest:
             self.real.violation(payload, concrete)
         self.buf = []
 
@@ -582,6 +586,31 @@ def main(cid):
         C.ensure_built([T.AREA], VO[cid])
     except C.BuildError as ex:
         build_err = ex
+    # the regenerated model must be the translation of THIS run's source (coq/gen is shared: a check of
+    # another area running concurrently regenerates it from its own VERIF_REPO)
+    import gen_tzfile
+    gen_abort = None
+    try:
+        want_gen = gen_tzfile.translate(open(os.path.join(C.SRC, "dateutil/tz/tz.py")).read(),
+                                        open(os.path.join(C.SRC, "dateutil/tz/_common.py")).read(),
+                                        open(os.path.join(C.SRC, "dateutil/zoneinfo/__init__.py")).read())
+    except gen_tzfile.TranslateError as ex:
+        gen_abort = "TRANSLATE-ERROR: %s" % ex
+        want_gen = None
+    except Exception as ex:
+        gen_abort = "TRANSLATE-ERROR: translator crashed: %r" % (ex,)
+        want_gen = None
+    for _retry in range(2):
+        try:
+            have = open(os.path.join(C.COQ, "gen", "TzGen.v")).read()
+        except OSError:
+            have = ""
+        if build_err is not None or (want_gen is not None and have == want_gen) or (want_gen is None and "TRANSLATE-ERROR" in have[:300]):
+            break
+        try:
+            C.ensure_built([T.AREA], VO[cid])
+        except C.BuildError as ex:
+            build_err = ex
     if build_err is None:
         props = C.compile_props(cid)
     else:
@@ -837,11 +866,18 @@ def main(cid):
         cov_extra["equality_pairs"] = len(sub) ** 2
         cov_extra["archive_metadata_ok"] = arch.metadata == {"tzversion": "verif"}
 
-    if not props["ok"] and not verdict.violations:
-        verdict.violation({"kind": "broken proof obligation", "theorem_file": "coq/props/%s.v" % cid,
+    if not props["ok"]:
+        # the regenerated model (harness/gen_tzfile.py) no longer equals the hand model, or the translator
+        # aborted, or another obligation broke: reported next to any concrete failing input found above
+        verdict.violation({"kind": "broken proof obligation" + (" (translator harness/gen_tzfile.py aborted)" if gen_abort else
+                                                                " (regenerated model coq/gen/TzGen.v vs hand model, or another theorem)"),
+                           "theorem_file": "coq/props/%s.v" % cid, "translator": gen_abort,
                            "theorems": props["theorems"], "discharged": props["discharged"], "input": None,
-                           "log_tail": props["log"][-3000:]}, concrete=False)
+                           "log_tail": props["log"][-2500:]}, concrete=False)
     rc = verdict.finish()
+    if not props["ok"]:
+        print("BROKEN-OBLIGATIONS property=%s discharged=%d/%d%s" % (
+            cid, props["discharged"], props["obligations"], " translator-abort: " + gen_abort[:200] if gen_abort else ""))
     cov = {
         "evaluations": evals,
         "distinct_nontrivial": nontrivial,
@@ -863,6 +899,9 @@ def main(cid):
         "load_errors": load_errs[:10],
         "gaps_outside_isolation_hypothesis_samples": not_isolated[:10],
         "known_findings_hit": verdict.known_hits,
+        "regenerated_model": {"generator": "harness/gen_tzfile.py (fail-closed Python-ast translator, run on this check)",
+                              "output": "coq/gen/TzGen.v", "translator_abort": gen_abort,
+                              "obligations": [t for t in props["theorems"] if "_gen_" in t]},
         "tier_parameters": p,
         "phase_seconds": {"build_and_props_incl_lock_wait": round(t_built - t0, 1),
                           "zones": round(t_zones - t_built, 1), "rest": round(time.time() - t_zones, 1)},
